@@ -202,6 +202,9 @@ class Model:
         self.pres_outstanding: set[int] = set()
         self.stale_ok: set[tuple[int, int, int]] = set()  # parked before the node re-presented: release optional
         self.pres_maybe: set[int] = set()  # request-outstanding bit unspecified (node presented under 1.x rules)
+        # ids whose response reached the transport in this process: "two requests never receive the same id", whatever
+        # happened to the registry in between (kept apart from the registry on purpose)
+        self.handed_out: set[int] = set()
         self.relaxations: Counter = Counter()
         self.local_epoch = None  # callable -> expected local-epoch int at "now"
         if version is not None:
@@ -331,7 +334,8 @@ class Model:
                     self.pres_maybe.add(n)
                     self.relaxations["presentation-under-1x-rules"] += 1
                 self.pres_outstanding.discard(n)
-                self.stale_ok.update(k for k in self.parked if k[0] == n)
+                # (a command parked for the node before it presented itself again is still owed at its next wake:
+                #  the statement makes no exception for a re-presentation)
                 if n == 0:
                     version_report(p)
             elif n not in self.nodes:
@@ -684,6 +688,11 @@ class Model:
             d.append(("idalloc", "id-out-of-range", str(new_id)))
         if new_id in before:
             d.append(("idalloc", "id-not-fresh", f"{new_id} in registry {sorted(before)[:12]}"))
+        elif new_id in self.handed_out:
+            d.append(("idalloc", "id-handed-out-twice", f"{new_id} was already the answer to an earlier request; "
+                                                         f"registry now {sorted(before)[:12]}"))
+        if resp[0][1]:
+            self.handed_out.add(new_id)
         if obs.attrs.get("registered_at_write") is False:
             d.append(("idalloc", "registered-after-write", str(new_id)))
         if after - before != {new_id}:
